@@ -1,4 +1,42 @@
 """C08 -- result vectors are well-formed at every stopping point."""
+import itertools
+from fractions import Fraction as Fr
+import vlib, spine, solver_suite as SS, gen_cases as G, double_suite as D
 from props._common import run_solver_property
+
+KIND = {0: "free", 1: "lower", 2: "upper", 3: "both"}
+
+def pattern_case(rng, name, pat, budgets, exact=True):
+    """one problem with the given finite/infinite pattern (tuple over variables, values 0..3), solved with several max_iter budgets"""
+    n = len(pat)
+    pb = G.gen_problem(rng, n=n, p=rng.choice([0, 0, 1]) if n > 1 else 0, m=rng.choice([0, 1, 2]), bound_kinds=[KIND[k] for k in pat])
+    st = (list(G.FRIENDLY) if exact else []) + [("preconditioner_iter", str(rng.choice([0, 2, 10])))]
+    ops = (["CPBITS 64"] if exact else []) + [G.op_setup(pb)]
+    pbs = {0: pb}
+    opno = 1
+    for mi in budgets:
+        ops += ["SET max_iter %d" % mi, G.op_solve()]; pbs[opno] = pb; opno += 1
+    return SS.Case(name, st, ops, pbs, ["n%d" % n, "pat:" + "".join(map(str, pat))])
+
+def stage(ctx):
+    """exhaustive finite/infinite bound patterns: all 4^n patterns, every intermediate iterate observed through max_iter = 1..K"""
+    rng = ctx.rng
+    nmax_exact = 2 if ctx.quick() else 4
+    cases = []
+    for n in range(1, nmax_exact + 1):
+        for i, pat in enumerate(itertools.product(range(4), repeat=n)):
+            cases.append(pattern_case(rng, "e%d_%d" % (n, i), pat, budgets=(1, 2, 3, 6)))
+    SS.run_suite(ctx, cases, preconds=("ruiz",), name="c08pat", codes=("C08",))
+    ctx.coverage["exhaustive_patterns_exact"] = "all 4^n finite/infinite bound patterns for n <= %d, max_iter in {1,2,3,6}, 5 back ends" % nmax_exact
+    if not ctx.quick():
+        dc = []
+        for n in (5, 6):
+            for i, pat in enumerate(itertools.product(range(4), repeat=n)):
+                dc.append(pattern_case(rng, "d%d_%d" % (n, i), pat, budgets=(1, 4, 250), exact=False))
+        D.run_double(ctx, dc, name="c08patd", codes=("C08",))
+        ctx.coverage["exhaustive_patterns_double"] = "all 4^n patterns for n = 5, 6 (5120 problems), max_iter in {1,4,250}, 5 back ends, double"
+        ctx.coverage["exhaustive"] = True
+
 def run(ctx):
-    return run_solver_property(ctx, "C08", codes=("C08",), extra_theorem_files=("Properties_Bounds.v", "Properties_C08_interior.v", "Properties_C08_outputs.v", "Properties_C01.v"), focus_mix=("bounds", "mixed", "bounds", "updates"))
+    return run_solver_property(ctx, "C08", codes=("C08",), extra_theorem_files=("Properties_Bounds.v", "Properties_C08_interior.v", "Properties_C08_outputs.v", "Properties_C01.v"),
+                               focus_mix=("bounds", "mixed", "bounds", "updates"), extra_stage=stage)
